@@ -27,6 +27,16 @@ def parseSource (j : Json) : Except String HModule := do
     pure (⟨← getStr i "n", ← parseRef (← i.getObjVal? "ref"), [], conns⟩ : HInst)
   pure ⟨← getStr j "name", sigs, ports, insts⟩
 
+def parseArrays (j : Json) : Except String (List HArr) :=
+  match j.getObjVal? "arrays" with
+  | .error _ => pure []
+  | .ok a => do
+    (← a.getArr?).toList.mapM fun i => do
+      let conns ← (← getArr i "conns").toList.mapM fun c => do
+        let a ← c.getArr?
+        pure ((← (a[0]?.getD Json.null).getStr?), (← parseSConn (a[1]?.getD Json.null)))
+      pure (⟨← getStr i "n", ← parseRef (← i.getObjVal? "ref"), [], ← getNat i "size", conns⟩ : HArr)
+
 partial def targetJson : PTarget → Json
   | .sig n => Json.mkObj [("sig", n)]
   | .slice n t b => Json.mkObj [("slice", Json.arr #[Json.str n, toJson t, toJson b])]
@@ -72,10 +82,14 @@ def handle (op : String) (j : Json) : Except String Json := do
     let ctx : PRef → Option (List (String × Nat)) := fun r => (table.find? fun e => e.1 == r).map (·.2)
     -- which layout of the signal list the exporter at hand writes (read off a probe module by the harness)
     let pf := match j.getObjVal? "ports_first" with | .ok (.bool b) => b | _ => false
-    let stage : String := match elabModule (fuelOf h) ctx h with
+    let arrs ← parseArrays (← j.getObjVal? "module")
+    -- element `k` of array `a` is called `a_k` (the harness keeps such names free; the naming itself is C05's model `inventAll`)
+    let nm : String → Nat → String := fun a k => s!"{a}_{k}"
+    let fuel := match flattenArrays ctx nm arrs.reverse h with | .ok h' => fuelOf h' | .error _ => fuelOf h
+    let stage : String := match elabModule fuel ctx h with
       | .error (.reject m) => m
       | .ok _ => "elaborated"
-    match pipeline (fuelOf h) ctx h with
+    match (if arrs.isEmpty then pipeline fuel ctx h else pipelineA fuel ctx nm arrs h) with
     | .error (.reject m) => pure (Json.mkObj [("error", m), ("stage", stage)])
     | .ok p =>
       let p' : PModule := if pf then { p with signals := sigListPF h } else p
